@@ -241,7 +241,7 @@ def install(eng):
             "pos >= 0",
             "forall(lambda j: (j in sacct_asked) == (j in old(sacct_asked) or any(tracked_jobs[i] == j for i in Idx if 0 <= i and i < pos and i < len(tracked_jobs))), JobId)",
             "all(j in elems(tracked_jobs) for j in job_states)"])},
-        serves=["C08"])
+        serves=["C08", "C02", "C05", "C06", "C09"])
     eng.universe("Idx", T.INT)
     eng.contract(
         "gwf.backends.slurm:SlurmOps.get_job_states", self_type=SO, params={"self": SO, "tracked_jobs": LJ},
@@ -254,7 +254,7 @@ def install(eng):
             # ... and with accounting disabled the database is never consulted
             "implies(not self.accounting_enabled, call_count['sacct'] == old(call_count['sacct']) and "
             "sacct_asked == old(sacct_asked) and dict_eq(result, SqueueStates(self)))"],
-        raises={"BackendError": "True"}, serves=["C08"])
+        raises={"BackendError": "True"}, serves=["C08", "C02", "C05", "C06", "C09"])
     bc = eng.contracts["gwf.backends.slurm:SlurmOps.get_job_states_from_sacct_batched"]
     bc.ensures = list(bc.ensures) + ["implies(len(tracked_jobs) == 0, call_count['sacct'] == old(call_count['sacct']))"] if False else bc.ensures
 
